@@ -28,7 +28,7 @@ def _plan_core(tier, seed):
     muts = 40 if tier == "quick" else 200
     gens = 100 if tier == "quick" else 400
     return [{"tier": tier, "seed": seed, "shard": i, "fixtures": fx[i::n], "mutations": muts,
-             "gen_start": i * gens, "gen_count": gens} for i in range(n)]
+             "gen_start": i * gens, "gen_count": gens, "foreign_payload": 18 if tier == "quick" else 90} for i in range(n)]
 
 
 def mutate(raw, rng):
@@ -252,6 +252,26 @@ def run_shard(spec_, res):
                 sources.append((f"foreign:{c.kind}", refcodec.encode(N, ch), dict(c.describe(), choices=ch.describe())))
             except Exception:
                 res.count("foreign_encoding_failed")
+    # payload-heavy types as another writer stores them, with the corner contents such writers leave behind
+    # (zero-length sample in the last occupied slot, empty names)
+    for j in range(spec_.get("foreign_payload", 0)):
+        try:
+            from .. import build as _build, refcodec
+            import rv.api as api
+            T = ("Sampler", "Sampler", "MetaModule", "VorbisPlayer", "AnalogGenerator", "Generator")[j % 6]
+            c = workload.module_case(spec_["seed"], 880000 + spec_["shard"] * 1000 + j, tier, T, ctx="synth")
+            N = _build.norm(snapshot.snap_synth(api.Synth(c.obj)), "before")
+            r2 = random.Random(j * 13 + spec_["seed"] + spec_["shard"])
+            pl = N["module"].get("payload") or {}
+            if T == "Sampler" and pl.get("samples"):
+                last = max(pl["samples"])
+                if r2.random() < 0.6:
+                    pl["samples"][last]["data"] = b""
+                    res.count("foreign_sampler_last_slot_empty")
+            sources.append((f"foreign-payload:{T}", refcodec.encode(N, refcodec.Choices(r2)), dict(c.describe(), foreign=T)))
+        except Exception as e:
+            res.count("foreign_encoding_failed")
+            res.hist("foreign_encoding_failed_why", workload.exc_key(e))
     for origin, raw, desc in sources:
         cycle(res, raw, origin.split(":")[0], dict(desc, origin=origin, mutation=None))
         nm = spec_["mutations"] if origin.startswith("fixture") else max(2, spec_["mutations"] // 6)
